@@ -594,17 +594,16 @@ def _parse_experimental_function_value_info_name(
         A tuple of the function domain, function name and value name if the value info is for a function.
         None otherwise.
     """
-    parts = name.split("/")
-    expected_parts = 2
-    if len(parts) != expected_parts:
+    # The value name is free text and may itself contain the separators, so split
+    # only at the first occurrence of each
+    function, separator, value_name = name.partition("/")
+    if not separator:
         return None
-    function, value_name = parts
-    parts = function.split("::")
-    if len(parts) != expected_parts:
+    function_domain, separator, function_name = function.partition("::")
+    if not separator:
         return None
     # NOTE: There will not be overload because overloads are introduced in ONNX IR v10, which also
     # introduces the ValueInfoProto for functions
-    function_domain, function_name = parts
     return function_domain, function_name, value_name
 
 
